@@ -10,6 +10,9 @@
 (* client, or a colliding host/method split; or only the host differs - the histories the cache  *)
 (* is sensitive to; or only the method differs) and one for the URL the previous request was     *)
 (* rewritten to ("rw": same host and method, the path its backend saw), Pick(q)                  *)
+(* rewritten to ("rw": same host and method, the path its backend saw), one whose header values     *)
+(* collide with those of the previous request ("hdr"), one for which a result was stored before the *)
+(* previous request ("back"); Pick(q)                                                               *)
 (* only remembers the choice (cheap successors), Do performs HttpRouter!Request(q) (one         *)
 (* successor).                                                                                   *)
 (*                                                                                              *)
@@ -80,17 +83,23 @@ NearSet(p) == {q \in Reqs : q # p /\ \/ Cat(q) = Cat(p)
 RwSet(p) == {q \in Reqs : /\ last.a = "req" /\ last.exp.code = 0 /\ last.exp.path # p.path
                           /\ q.host = p.host /\ q.m = p.m /\ q.path = last.exp.path}
 
+(* requests for which the server may hold a stored result that is not the one stored or used last:  *)
+(* a result is asked for again after other results have been stored (by other clients, for other     *)
+(* hosts); whatever is kept with one stored result must not have changed in the meantime             *)
+BackSet == {q \in Reqs : Key(q) \in DOMAIN cache /\ Triple(q) # Triple(last.q)}
+
 Mode == /\ started /\ pend = <<>> /\ mode = "" /\ n < MaxReqs
         /\ \/ mode' = "any"
            \/ last.a = "req" /\ NearSet(last.q) # {} /\ mode' = "near"
            \/ last.a = "req" /\ RwSet(last.q) # {} /\ mode' = "rw"
            \/ last.a = "req" /\ HdrNearSet(last.q) # {} /\ mode' = "hdr"
+           \/ last.a = "req" /\ CacheOn /\ BackSet # {} /\ mode' = "back"
            \/ last.a \in {"unmap", "map", "remap"} /\ mode' = "again"
         /\ out' = ""
         /\ UNCHANGED <<vars, plan, started, pend, purges, unmaps>>
 
 Pick == /\ started /\ pend = <<>> /\ mode # ""
-        /\ \E q \in (CASE mode = "near" -> NearSet(last.q) [] mode = "rw" -> RwSet(last.q) [] mode = "hdr" -> HdrNearSet(last.q) [] mode = "again" -> {last.q} [] OTHER -> Reqs) : pend' = <<q>>
+        /\ \E q \in (CASE mode = "near" -> NearSet(last.q) [] mode = "rw" -> RwSet(last.q) [] mode = "hdr" -> HdrNearSet(last.q) [] mode = "back" -> BackSet [] mode = "again" -> {last.q} [] OTHER -> Reqs) : pend' = <<q>>
         /\ out' = ""
         /\ UNCHANGED <<vars, plan, started, mode, purges, unmaps>>
 
